@@ -30,6 +30,24 @@ def check_option_passthrough(rep, rule, ty='WriteOptions'):
                 rep.check(own, rule, f'options-passthrough:{cn}->{callee.split("::")[-1]}', cb.where(bb),
                           f'{cn} does not hand its own `{ty}` parameter unchanged to {callee} (argument root {r}): an option is changed on the way, so the output / the gates '
                           f'no longer follow the options the caller gave', ok_detail=f'{ty} forwarded unchanged')
+    # the options may also travel inside a context record (`StructContext { module, options, .. }`): whatever is put into such a record is the
+    # function's own parameter, unchanged
+    from engine_mir import op_local
+    for cn, cb in sorted(mir.bodies.items()):
+        for bb, blk in enumerate(cb.blocks):
+            for st in blk['stmts']:
+                rv = st['rv']
+                if rv['rk'] != 'aggregate' or rv['agg'].startswith('closure:') or rv['agg'].split('::')[-1] == ty or rv['agg'].startswith(('tuple', 'array')):
+                    continue
+                for o in rv.get('ops', []):
+                    l = op_local(o)
+                    if l is None or ty not in cb.locals[l] or 'Option<' in cb.locals[l]:
+                        continue
+                    r = canon(cb, op_place(o))
+                    own = 1 <= r[0] <= cb.arg_count and (ty in cb.locals[r[0]] or cb.kind == 'Closure')
+                    rep.check(own, rule, f'options-in-record:{cn}:{rv["agg"].split("::")[-1]}', cb.where(bb),
+                              f'{cn} stores a `{ty}` that is not its own parameter (root {r}) in {rv["agg"]}: the functions reading the options from that record see '
+                              f'changed options', ok_detail=f'{ty} stored unchanged')
     rep.floor(f'calls between crate functions that carry a {ty}', n, 2)
 
 
